@@ -160,7 +160,7 @@ def run(ctx):
                     live_c['roles'] = [r for r in live_c.get('roles', []) if rng.random() < 0.5] + ([rng.choice(['r1', 'r2'])] if rng.random() < 0.6 else [])
             redefine = rng.choice(['a3', 'default', 'a2'])
             body = rng.choice(leafs) if redefine != 'a2' else rng.choice([ev.rule('a3'), ev.rule('ghost'), ev.Not(ev.rule('a3'))])
-            sess.set_rules([(redefine, body)], overwrite=False, how=rng.choice(['rules_obj', 'dict']))
+            sess.set_rules([(redefine, body)], overwrite=False, how=rng.choice(['rules_obj', 'dict']), scribble=rng.random() < 0.5)
         sess.enforce({'by': 'name', 'name': 'a1'}, {}, rng.choice(CREDS), checklog=1)
         sess.enforce({'by': 'name', 'name': 'ghost'}, {}, rng.choice(CREDS), checklog=1)
         sessions.append(sess)
